@@ -22,7 +22,8 @@ from vlib import log
 
 TAMPER_OPS = {"mul", "div", "inv0", "is_zero", "is_equal", "is_equal_to_fixed", "select", "cond_swap", "xor", "or", "and",
               "to_le_bits", "lower_than", "geq", "sgn0", "assert_lower_than_fixed", "div_rem", "band", "bnot", "bounded",
-              "to_le_bytes", "lincomb", "from_le_bits", "range2", "lower_than_fixed", "bxor"}
+              "to_le_bytes", "lincomb", "from_le_bits", "range2", "lower_than_fixed", "bxor",
+              "vec_info", "vec_trim", "vec_trim_only", "vec_eq", "vec_resize"}
 
 
 GS_OPS = [("mul", []), ("is_zero", []), ("is_equal", []), ("is_not_equal", []), ("inv0", []), ("inv", []), ("select", []), ("cond_swap", []),
